@@ -19,7 +19,8 @@ META = {
     "text": "Theorems (no bound on heads/facts/strategy): sequential AD sampling is categorical for every encounter order, "
             "facts are independent and drawn once, printed probability = probability of the sample for every adaptive "
             "encounter strategy, rejection = conditioning. Tie: real sample() with random.random replaced by a scripted "
-            "sequence; every add_atom call (result, draws consumed, self.probability, self.groups) must equal the model's.",
+            "sequence; every add_atom call (result, draws consumed, self.probability, self.groups) must equal the model's."
+            " C22_printed_probability now holds without side condition: well-formed tables make every reachable sampler state `ok` (remaining-mass invariant).",
     "note": "PARTIAL: 'frequencies converge as the number of samples grows' (law of large numbers) is NOT formalised; "
             "it is only tested (fixed seed, Hoeffding bound, false-alarm probability < 1e-9 per run) and labelled as a test. "
             "Continuous distributions (sample_value) and the engine's choice of which atoms to ask are out of the model: the "
